@@ -23,6 +23,18 @@ var bom = []byte{0xef, 0xbb, 0xbf}
 
 type srcCase struct {
 	Src vt.B `json:"src"`
+	// Pad appends that many bytes of NUL-free filler after Src (inputs larger than the reader's 4096-byte buffer).
+	Pad int `json:"pad,omitempty"`
+}
+
+const filler = "\nvar filler = 1 // 0123456789 é"
+
+func (c srcCase) bytes() []byte {
+	src := append([]byte(nil), c.Src...)
+	if c.Pad > 0 && c.Pad <= 1<<20 {
+		src = append(src, strings.Repeat(filler, c.Pad/len(filler)+1)[:c.Pad]...)
+	}
+	return src
 }
 
 func parserImports(src []byte, mode parser.Mode) ([]string, error) {
@@ -55,7 +67,7 @@ func isPrefixBOMAside(data, src []byte) bool {
 
 // checkValid: src is a syntactically valid Go file (validated with go/parser; otherwise skipped).
 func checkValid(c srcCase) *vt.Fail {
-	src := []byte(c.Src)
+	src := c.bytes()
 	want, perr := parserImports(src, 0)
 	if perr != nil {
 		rec.Class("valid:rejected-by-go/parser", 1)
@@ -111,7 +123,7 @@ func eqStrings(a, b []string) bool {
 
 // checkAny: arbitrary bytes.
 func checkAny(c srcCase) *vt.Fail {
-	src := []byte(c.Src)
+	src := c.bytes()
 	d1, l1, e1, fail := readImports(src, true)
 	if fail != nil {
 		return fail
@@ -165,6 +177,12 @@ var cmtBlockNL = []string{"/*\n*/", "/* a\n import \"n\" */", "/*/\n*/"}
 // gapNL: any white space, may contain newlines and comments.
 func gapNL(t *rapid.T, b *strings.Builder, st *stats) {
 	n := rapid.IntRange(0, 3).Draw(t, "gapn")
+	if rapid.IntRange(0, 199).Draw(t, "gapbig") == 137 {
+		// a comment that straddles the reader's 4096-byte buffer
+		b.WriteString("/*" + strings.Repeat("x ", rapid.SampledFrom([]int{2030, 2046, 2047, 2048, 4100}).Draw(t, "bigc")) + "*/")
+		st.comments++
+		st.big++
+	}
 	for i := 0; i < n; i++ {
 		switch rapid.IntRange(0, 7).Draw(t, "gap") {
 		case 0, 1:
@@ -271,7 +289,7 @@ func genPath(t *rapid.T) string {
 	}
 }
 
-type stats struct{ comments, semis, imports, groups int }
+type stats struct{ comments, semis, imports, groups, big int }
 
 func genSpec(t *rapid.T, b *strings.Builder, st *stats) {
 	switch rapid.IntRange(0, 5).Draw(t, "alias") {
@@ -374,7 +392,7 @@ type validCase struct {
 func TestValidFiles(t *testing.T) {
 	vt.Run(t, rec, vt.Prop[validCase]{Kind: "valid", Gen: func(t *rapid.T) validCase {
 		s, st := genFile(t)
-		return validCase{srcCase{vt.B(s)}, st}
+		return validCase{srcCase{Src: vt.B(s)}, st}
 	}, Check: func(c validCase) *vt.Fail { return checkValid(c.srcCase) }, Meta: func(c validCase) vt.Meta {
 		cl := []string{fmt.Sprintf("imports=%d", min(c.st.imports, 4))}
 		if bytes.HasPrefix(c.Src, bom) {
@@ -382,6 +400,9 @@ func TestValidFiles(t *testing.T) {
 		}
 		if c.st.groups > 0 {
 			cl = append(cl, "grouped")
+		}
+		if c.st.big > 0 {
+			cl = append(cl, "comment-longer-than-4096")
 		}
 		return vt.Meta{NonTrivial: c.st.imports >= 1 && (c.st.comments > 0 || c.st.semis > 0), Classes: cl}
 	}}, vt.N(40000, 600000))
@@ -413,15 +434,25 @@ func genAny(t *rapid.T) srcCase {
 			src = append(bom, src...)
 		}
 	}
-	return srcCase{Src: src}
+	c := srcCase{Src: src}
+	if rapid.IntRange(0, 7).Draw(t, "padded") == 5 {
+		c.Pad = rapid.SampledFrom([]int{4000, 4095, 4096, 4097, 4097, 5000, 5000, 8192, 8192, 10000, 70000}).Draw(t, "pad")
+	}
+	return c
 }
 
 func TestAnyBytes(t *testing.T) {
 	vt.Run(t, rec, vt.Prop[srcCase]{Kind: "any", Gen: genAny, Check: checkAny, Meta: func(c srcCase) vt.Meta {
-		_, l, e, _ := readImports(c.Src, true)
+		_, l, e, _ := readImports(c.bytes(), true)
 		cl := []string{"strict-ok"}
 		if e != nil {
 			cl = []string{"strict-" + strings.ReplaceAll(e.Error(), " ", "-")}
+		}
+		if c.Pad > 0 {
+			cl = append(cl, "padded-beyond-4096")
+			if e != nil {
+				cl = append(cl, "padded-after-error")
+			}
 		}
 		return vt.Meta{NonTrivial: e != nil || len(l) > 0, Classes: cl}
 	}}, vt.N(40000, 600000))
